@@ -439,7 +439,13 @@ class Point(HyperbolicObject, projective.Point):
             towards `other`.
 
         """
-        diff = other.proj_data - self.proj_data
+        # the difference of two representatives only points from self
+        # towards other if they lie on the same sheet of the
+        # hyperboloid (i.e. pair negatively); otherwise flip other
+        products = utils.apply_bilinear(self.proj_data, other.proj_data,
+                                        self.minkowski)
+        flip = np.where(np.array(products > 0), -1, 1)
+        diff = (other.proj_data.T * flip.T).T - self.proj_data
         return TangentVector(self, diff).normalized()
 
     def get_origin(dimension, shape=(), **kwargs):
